@@ -108,6 +108,9 @@ def gen_cases(run, layout, n_hist, n_raw):
         hg = g.HistGen(r, max_events=r.choice([4, 6, 9, 12]))
         evs = hg.gen()
         cfg = r.choice(["doc"] * 6 + ["do-", "d-c", "-oc", "d--", "-o-", "--c"])
+        # resource flags of the application (5th character): none of them may change what is
+        # persisted or restored
+        cfg += r.choice(["", "", "-w", "-w", "-m", "-f", "-a"])
         # D = the C library's own buffering (only the persistent files are compared then)
         buf = r.choice("LLE") if run.tier == "quick" else r.choice("LLEED")
         freq = (i % 10) + 1
